@@ -93,7 +93,7 @@ def validate_records(records, module='PipelineTrace.tla', cfg='PipelineTrace.cfg
 def validate(records, unfixed=None, timeout=3600):
     v, st = validate_records(records, unfixed=unfixed, timeout=timeout)
     for r in v.values():
-        for k in ('C01', 'C02', 'C03'):
+        for k in ('C01', 'C02', 'C03', 'C14', 'C18'):
             r[k] = tuple(r[k])
     return v, st
 
